@@ -60,21 +60,22 @@ type Ev struct {
 }
 
 type Req struct {
-	Seq      int
-	Pkg      string
-	Mode     string `json:",omitempty"`
-	Entry    int
-	In       []byte
-	Hist     [][]byte `json:",omitempty"`
-	Memo     bool
-	Size     int    `json:",omitempty"`
-	U        string `json:",omitempty"`
-	Pretty   bool   `json:",omitempty"`
-	Stdout   bool   `json:",omitempty"`
-	NoExec   bool   `json:",omitempty"`
-	Shared   bool   `json:",omitempty"` // initialise with option values shared by all instances of the package
-	PrintRaw bool   `json:",omitempty"`
-	Print    bool   `json:",omitempty"` // conc mode: capture the process's standard output, report its byte histogram
+	Seq       int
+	Pkg       string
+	Mode      string `json:",omitempty"`
+	Entry     int
+	In        []byte
+	Hist      [][]byte `json:",omitempty"`
+	HistEntry []int    `json:",omitempty"`
+	Memo      bool
+	Size      int    `json:",omitempty"`
+	U         string `json:",omitempty"`
+	Pretty    bool   `json:",omitempty"`
+	Stdout    bool   `json:",omitempty"`
+	NoExec    bool   `json:",omitempty"`
+	Shared    bool   `json:",omitempty"` // initialise with option values shared by all instances of the package
+	PrintRaw  bool   `json:",omitempty"`
+	Print     bool   `json:",omitempty"` // conc mode: capture the process's standard output, report its byte histogram
 	// conc mode
 	Conc []Req `json:",omitempty"`
 	Gor  int   `json:",omitempty"`
@@ -99,6 +100,7 @@ type Res struct {
 	End     int
 	Bad     []string
 	NRunes  int
+	LateErr []string
 	Hist    []Res
 	// conc mode
 	Overlap    int
